@@ -68,6 +68,7 @@ typedef struct {
     int cec, sec;                   /* ecFlags (TLS <= 1.2 curves); 0 = default */
     uint16_t csig[4], ssig[4]; int ncsig, nssig;
     int cems, sems, fallback, client_auth, tickets;
+    int prelude, pre_sems;           /* a first, complete connection with the server's EMS option pre_sems; its session id / ticket is then offered to the judged server session (option sems) */
     char label[48];
 } ncfg_t;
 
@@ -234,6 +235,28 @@ static int run_setup(run_t *R)
     co.fallbackScsv = (short) c->fallback;
     if (c->tickets) co.ticketResumption = 1;
     if (c->dtls) matrixDtlsSetPmtu(-1);
+    if (c->prelude)
+    {
+        sslSessOpts_t so1 = so;
+        so1.extendedMasterSecret = (short) c->pre_sems;
+        for (i = 0; i < c->ncsuite; i++) suites[i] = c->csuite[i];
+        if (matrixSslNewServerSession(&w->s[1].ssl, w->s[1].keys, NULL, &so1) >= 0 &&
+            matrixSslNewClientSession(&w->s[0].ssl, w->s[0].keys, w->sid, suites, (uint8_t) c->ncsuite, c07_cert_cb, NULL, NULL, NULL, &co) >= 0)
+        {
+            world_pump(w, 200);
+            if (world_is_complete(w, 0) && world_is_complete(w, 1))
+            {
+                world_app_send(w, 0, (const unsigned char *) "prelude", 7);
+                world_pump(w, 50);
+                world_close(w, 0);
+                world_pump(w, 20);
+            }
+        }
+        world_free_sessions(w);
+        world_wire_clear(w, 0);
+        world_wire_clear(w, 1);
+        buf_clear(&w->trace);
+    }
     rc = matrixSslNewServerSession(&w->s[1].ssl, w->s[1].keys, c->client_auth ? c07_cert_cb : NULL, &so);
     if (rc < 0) SETUP_FAIL("NewServerSession", rc);
     for (i = 0; i < c->nshist; i++)
@@ -472,11 +495,11 @@ static void run_exec(run_t *R)
 }
 
 /* ----------------------------------------------------------------------------- products -> config */
-enum { P_VER = 0, P_VERC, P_VERD, P_VXS, P_SUITE, P_SUITE12, P_GRP13, P_GRP12, P_SIG13, P_SIG12, P_SIG13CA, P_EMS, P_FB, P_RW, P_SHIST, P_NPROD };
-static const char *pname[] = { "ver", "verc", "verd", "vxs", "suite", "suite12", "grp13", "grp12", "sig13", "sig12", "sig13ca", "ems", "fb", "rw", "shist" };
+enum { P_VER = 0, P_VERC, P_VERD, P_VXS, P_SUITE, P_SUITE12, P_GRP13, P_GRP12, P_SIG13, P_SIG12, P_SIG13CA, P_EMS, P_FB, P_RW, P_SHIST, P_EMSRES, P_NPROD };
+static const char *pname[] = { "ver", "verc", "verd", "vxs", "suite", "suite12", "grp13", "grp12", "sig13", "sig12", "sig13ca", "ems", "fb", "rw", "shist", "emsres" };
 static long psize(int p)
 {
-    static const long n[] = { NVL * NVL, 2 * NVL * NVL, 4, NVL * NVL * 49, 225, 225, 450, 49, 225, 225, 225, 36, 25, 18, 258 * 9 };
+    static const long n[] = { NVL * NVL, 2 * NVL * NVL, 4, NVL * NVL * 49, 225, 225, 450, 49, 225, 225, 225, 36, 25, 18, 258 * 9, 54 };
     return n[p];
 }
 
@@ -605,6 +628,19 @@ static int build_cfg(int prod, long idx, ncfg_t *c)
         c->csuite[0] = mode == 1 ? S_RSA : S_PSK; c->ncsuite = 1;
         break;
     }
+    case P_EMSRES:
+    {
+        /* resumption across a changed server requirement: client option x server option of the first connection x server
+           option of the judged connection x {session id, ticket} */
+        static const int ev[3] = { 0, -1, 1 };
+        c->cems = ev[idx % 3]; c->pre_sems = ev[idx / 3 % 3]; c->sems = ev[idx / 9 % 3];
+        c->tickets = (int) (idx / 27);
+        c->prelude = 1;
+        c->keys = K_RSA;
+        set_vl(c->cver, &c->ncver, 1); set_vl(c->sver, &c->nsver, 1);
+        c->csuite[0] = S_RSA; c->ncsuite = 1;
+        break;
+    }
     case P_SHIST:
     {
         /* every history of <= 3 enable/disable calls over 3 suites on the server session x every client list of 1 or 2 of them */
@@ -704,6 +740,7 @@ static void cfg_text(const ncfg_t *c, char *out, size_t n)
     if (c->ncsig) { ADD(" csig="); for (i = 0; i < c->ncsig; i++) ADD("%s%04x", i ? "," : "", c->csig[i]); }
     if (c->nssig) { ADD(" ssig="); for (i = 0; i < c->nssig; i++) ADD("%s%04x", i ? "," : "", c->ssig[i]); }
     if (c->cems || c->sems) ADD(" ems=%d/%d", c->cems, c->sems);
+    if (c->prelude) ADD(" after-a-first-connection(server-ems=%d,%s)", c->pre_sems, c->tickets ? "ticket" : "session-id");
     if (c->fallback) ADD(" fallback-scsv");
     if (c->client_auth) ADD(" cauth");
 #undef ADD
@@ -1203,6 +1240,7 @@ int main(int argc, char **argv)
     for (i = 0; i < psize(P_VERD); i++) add_case(P_VERD, i, -1, -1);
     for (i = 0; i < psize(P_VERC); i++) if (thorough || (i < NVL * NVL && i / NVL < 7 && i % NVL < 7)) add_case(P_VERC, i, -1, -1);
     for (i = 0; i < psize(P_EMS); i++) add_case(P_EMS, i, -1, -1);
+    for (i = 0; i < psize(P_EMSRES); i++) add_case(P_EMSRES, i, -1, -1);
     for (i = 0; i < psize(P_FB); i++) add_case(P_FB, i, -1, -1);
     for (i = 0; i < psize(P_VXS); i++) if (thorough || (i % NVL < 7 && i / NVL % NVL < 7 && i / (NVL * NVL * 7) == 6)) add_case(P_VXS, i, -1, -1);
     for (i = 0; i < psize(P_SUITE); i++) add_case(P_SUITE, i, -1, -1);
